@@ -23,8 +23,9 @@ VARIABLES l,        \* position in Rec
           seg,      \* segment number
           lay,      \* overlay configurations: previous snapshot of the layers (raw entry lists)
           outs,     \* altroot configurations: previous snapshot of the underlying filesystem
-          twinsync  \* altroot configurations: the twin world is still in the same state as the altroot world
-vars == <<l, world, cfg, tainted, seg, lay, outs, twinsync>>
+          twinsync, \* altroot configurations: the twin world is still in the same state as the altroot world
+          pwo       \* overlay configurations: marker set after the previous event (Level-B binding)
+vars == <<l, world, cfg, tainted, seg, lay, outs, twinsync, pwo>>
 
 \* ------------------------------------------------------------ overlay (C08/C09)
 LayerNode(layer, p) ==
@@ -66,6 +67,19 @@ Where(p) ==
 LowerKids(p) ==
   IF lay = <<>> THEN FALSE
   ELSE \E i \in DOMAIN lay : i > 1 /\ \E q \in Universe : Parent(q) = p /\ LayerNode(lay[i], q).k # "none"
+
+\* ------------------------------------------------------------ Level-B binding of the overlay algorithm (DRIFT, never a verdict)
+\* The recorded internal state (tree of the write layer, marker set) must be the one the Overlay module
+\* computes from the recorded pre-state.  A mismatch means the transcription and the code have drifted
+\* apart (e.g. after a refactoring); it is reported as DRIFT and does not affect any property.
+O == INSTANCE Overlay
+LayerTree(layer) == [p \in Universe |-> LayerNode(layer, p)]
+OvlOps == {"create_dir", "create_file", "append_file", "remove_file", "remove_dir", "create_dir_all", "remove_dir_all"}
+ClassAgrees(mc, oc) == IF mc = "ok" THEN oc = "ok" ELSE IF mc = "err" THEN oc \in ErrClasses ELSE oc = mc
+Drifted(e) ==
+  LET ls0 == [i \in DOMAIN lay |-> LayerTree(lay[i])]
+      r == O!OApply([op |-> e.op, p |-> e.p, q |-> e.q, c |-> e.c, f |-> e.f], ls0, pwo) IN
+  ~(ClassAgrees(r.c, e.res.c) /\ LayerTree(e.layers[1]) = r.up /\ {x \in Range(e.wo) : x \in Universe} = r.wo)
 
 \* ------------------------------------------------------------ altroot (C07)
 \* observation with times and error paths stripped: what "same outcome, same effect" compares
@@ -148,7 +162,7 @@ IsEv(k) == l <= Len(Rec) /\ Rec[l].ev = k
 
 TrInit ==
   /\ l = 1 /\ world = EmptyTree /\ cfg = [kind |-> "-", name |-> "-", sup |-> {}, ro |-> FALSE, prefix |-> <<>>]
-  /\ tainted = FALSE /\ seg = 0 /\ lay = <<>> /\ outs = {} /\ twinsync = FALSE
+  /\ tainted = FALSE /\ seg = 0 /\ lay = <<>> /\ outs = {} /\ twinsync = FALSE /\ pwo = {}
 
 TrSegInit ==
   /\ IsEv("init")
@@ -172,6 +186,7 @@ TrSegInit ==
      /\ lay' = IF isovl THEN e.layers ELSE <<>>
      /\ outs' = IF isalt THEN OutsideCore(e.outside, e.prefix) ELSE {}
      /\ twinsync' = (isalt /\ ObsCore(e.twinobs) = ObsCore(o))
+     /\ pwo' = IF isovl /\ "wo" \in DOMAIN e THEN {x \in Range(e.wo) : x \in Universe} ELSE {}
      /\ tainted' = (bad # {})
      /\ seg' = seg + 1
      /\ IF bad = {} THEN TRUE
@@ -191,6 +206,9 @@ TrCall ==
      \* once the two worlds have diverged (possible without a violation after an unspecified transfer)
      \* the twin comparison is suspended for the rest of the segment
      /\ twinsync' = (twinsync /\ cfg.kind = "alt" /\ "twin" \in DOMAIN e /\ ObsCore(e.twin.obs) = ObsCore(e.obs))
+     /\ pwo' = IF cfg.kind = "ovl" /\ "wo" \in DOMAIN e THEN {x \in Range(e.wo) : x \in Universe} ELSE pwo
+     /\ (IF cfg.kind = "ovl" /\ "wo" \in DOMAIN e /\ lay # <<>> /\ e.op \in OvlOps /\ ~tainted /\ bad = {} /\ Drifted(e)
+         THEN Report("DRIFT", [l |-> l, seg |-> seg, op |-> e.op, cfg |-> cfg.name, model |-> "Overlay"]) ELSE TRUE)
      /\ tainted' = (tainted \/ bad # {})
      /\ IF bad = {} THEN TRUE
         ELSE Report("VIOL", [l |-> l, seg |-> seg, secondary |-> tainted, conjs |-> bad,
@@ -241,7 +259,7 @@ TrFault ==
                              sig |-> [conj |-> CHOOSE c \in bad : TRUE, op |-> e.op, kind |-> cfg.kind, cfg |-> cfg.name, fault |-> TRUE,
                                       target |-> KindS(world, e.p), method |-> e.method, got |-> e.res.c, k |-> e.k, n |-> e.n,
                                       regime |-> r.regime, where |-> Where(e.p)]])
-  /\ UNCHANGED <<cfg, seg, lay, outs, twinsync>>
+  /\ UNCHANGED <<cfg, seg, lay, outs, twinsync, pwo>>
   /\ l' = l + 1
 
 TrNext == TrSegInit \/ TrCall \/ TrFault
